@@ -127,3 +127,70 @@ def strip_not(test: ast.AST) -> tuple[ast.AST, bool]:
         test = test.operand
         neg = not neg
     return test, neg
+
+
+class Aliases:
+    """Single-definition locals of a function that merely name an attribute chain (`ident = binding.value`,
+    `state = cast(ScopeState, self.scope_state)`): rules compare expressions after expanding them, so that introducing or
+    removing such a temporary does not change a verdict."""
+
+    def __init__(self, fn: ast.AST):
+        import copy
+        self._copy = copy
+        counts: dict = {}
+        rhs: dict = {}
+        for n in ast.walk(fn):
+            if isinstance(n, ast.Name) and isinstance(n.ctx, (ast.Store, ast.Del)):
+                counts[n.id] = counts.get(n.id, 0) + 1
+            elif isinstance(n, ast.arg):
+                counts[n.arg] = counts.get(n.arg, 0) + 1
+            elif isinstance(n, (ast.Nonlocal, ast.Global)):
+                for nm in n.names:
+                    counts[nm] = counts.get(nm, 0) + 5
+        for n in ast.walk(fn):
+            if isinstance(n, ast.Assign) and len(n.targets) == 1 and isinstance(n.targets[0], ast.Name):
+                v = n.value
+            elif isinstance(n, ast.AnnAssign) and isinstance(n.target, ast.Name) and n.value is not None:
+                v = n.value
+            else:
+                continue
+            name = n.targets[0].id if isinstance(n, ast.Assign) else n.target.id
+            if counts.get(name) != 1:
+                continue
+            if isinstance(v, ast.Call) and isinstance(v.func, ast.Name) and v.func.id == "cast" and len(v.args) == 2:
+                v = v.args[1]
+            if self._chain(v) and not (isinstance(v, ast.Name) and v.id == name):
+                rhs[name] = v
+        self.map = rhs
+
+    @staticmethod
+    def _chain(e) -> bool:
+        while isinstance(e, ast.Attribute):
+            e = e.value
+        return isinstance(e, ast.Name)
+
+    def expand(self, node: ast.AST, depth: int = 4) -> ast.AST:
+        amap = self.map
+        if not amap:
+            return node
+        t = self._copy.deepcopy(node)
+
+        class R(ast.NodeTransformer):
+            def visit_Name(self, n):
+                if isinstance(n.ctx, ast.Load) and n.id in amap:
+                    return ast.copy_location(_deep(amap[n.id]), n)
+                return n
+
+        def _deep(e):
+            return self._copy.deepcopy(e)
+
+        for _ in range(depth):
+            before = ast.dump(t)
+            t = R().visit(t)
+            if ast.dump(t) == before:
+                break
+        return t
+
+    def norm(self, node: ast.AST) -> str:
+        from sa.model import norm as _norm
+        return _norm(self.expand(node))
